@@ -10,12 +10,22 @@
    context cancellations and the internal steps of calls in progress).
 
    Assumptions, stated once:
-   * protocol: a client of the manager (rhp/v2, rhp/v3, rhp/v4, api: outside host/contracts) calls
-     Manager.Unlock(id) / the closure returned by LockV2Contract only while it holds id, once per
-     hold (AUnlock is enabled in pc Holding only).  For the users of the lock INSIDE the manager
-     — the error paths of Manager.Lock / LockV2Contract, the deferred releases of CheckIntegrity /
-     V2CheckIntegrity — this is not assumed but proved: [c15_unlock_only_by_holder],
-     [c15_session_releases_what_it_acquired], [c15_wrapper_paths];
+   * protocol: a caller of Manager.Lock / LockV2Contract calls Manager.Unlock(id) / the returned
+     closure only while it holds id, once per hold (AUnlock is enabled in pc Holding only).  This is
+     NOT assumed but proved
+     - for the users of the lock INSIDE the manager — the error paths of Manager.Lock /
+       LockV2Contract, the deferred releases of CheckIntegrity / V2CheckIntegrity:
+       [c15_unlock_only_by_holder], [c15_session_releases_what_it_acquired], [c15_wrapper_paths];
+     - for the users OUTSIDE it that hostd contains — RHP2 sessions (rhp/v2: rpcLock, rpcUnlock, the
+       deferred release of upgrade, every RPC error in between, renew-and-clear) and the RHP3
+       handlers (rhp/v3: processContractPayment, processFundAccountPayment, handleRPCRenew,
+       handleRPCExecute), modelled in Users.v as programs over the manager's API whose Unlock calls
+       run lock.go:33-46 whatever the caller holds: [c15_users_unlock_only_held] and the theorems
+       after it, for any number of such users interleaved with the callers above.
+     It remains an assumption for code outside hostd: coreutils' RHP4 server (rhp/v4/server.go:146-150,
+     524-528 and the `defer unlock()` of its handlers — read at the pinned version, the same bracket
+     shape as the RHP3 handlers and covered by the bracket user of Users.v if that reading is
+     right) and any other future caller;
    * atomicity: code under lr.mu, a channel send/receive and the choice made by a select are
      atomic steps; what lies below (Go memory model, runtime channels/select/sync.Mutex) is
      trusted, not modelled;
@@ -25,7 +35,7 @@
      terminate); the eventuality itself on the Go scheduler is the part the model cannot carry,
      hence [c15_waiter_progress_partial]. *)
 From HostdBase Require Import Base.
-From HostdLock Require Import Model Proofs Proofs2 Proofs3 Proofs4.
+From HostdLock Require Import Model Proofs Proofs2 Proofs3 Proofs4 Users ProofsUsers.
 Local Open Scope Z_scope.
 
 (** At most one caller holds the lock of a given contract at any time.  ([holds i th]: th is in
@@ -316,4 +326,172 @@ Example c15_check_nonvacuous :
         (Par [ALock 0 5%N false false])) (Par [ACheck 1 5%N false false false])) (Par [ALock 2 5%N false false]))
         (Par [AUnlock 0]))
   = [([SIdle; SWait 5%N; SHold 5%N], [(5%N, 2, 0)]); ([SIdle; SMgrErr; SHold 5%N], [(5%N, 1, 0)])].
+Proof. vm_compute; reflexivity. Qed.
+
+(** * The users of the lock outside host/contracts: RHP2 sessions, RHP3 (and RHP4) handlers
+
+    Users.v composes the locker model with programs: an RHP2 session per connection (state
+    machine over s.contract: Lock RPC accepted / refused at each check, Unlock RPC, any other RPC
+    succeeding or failing, renew-and-clear, connection close, the deferred release at session end),
+    bracketed handlers (`Lock; if err return; defer Unlock`), and free callers (everything of
+    Model.v).  [ureachable us]: us is reached from a system of ANY number of such users, all at
+    their start, by ANY finite interleaving of their steps, on any contract ids.  A user's
+    Manager.Unlock(i) is [raw_unlock]: the code of locker.Unlock looking up i whoever calls it. *)
+
+(** Protocol discharge: whenever a step of a session or handler calls Manager.Unlock(i), the
+    calling goroutine is the current holder of i ... *)
+Theorem c15_users_unlock_only_held : forall us a t i,
+  ureachable us -> call_of false us a = Some (t, CUnlock i) ->
+  exists th, nth_error (ths (ubase us)) t = Some th /\ tpc th = Holding i.
+Proof. exact users_unlock_only_held. Qed.
+Print Assumptions c15_users_unlock_only_held.
+
+(** ... the call is enabled, it is exactly the holder's Unlock of Model.v (so
+    [c15_unlock_only_by_holder] and [c15_unlock_never_blocks] apply to it: entry found, no token
+    pending, one holder before and none after, no panic, no blocked send), and the goroutine holds
+    nothing afterwards. *)
+Theorem c15_users_unlock_is_holder_unlock : forall us a t i,
+  ureachable us -> call_of false us a = Some (t, CUnlock i) ->
+  exists us' th', ustep us a = Some us' /\ step (ubase us) (AUnlock t) = Some (ubase us')
+                  /\ nth_error (ths (ubase us')) t = Some th' /\ tpc th' = Idle.
+Proof. exact users_unlock_is_holder_unlock. Qed.
+Print Assumptions c15_users_unlock_is_holder_unlock.
+
+(** Hence every execution of the whole system is an execution of the locker model in which only
+    holders unlock: every theorem above about [reachable] — mutual exclusion, the count, the token,
+    one unlock / one waiter, no blocked or panicked Unlock, progress, no leak — holds for the
+    locker driven by RHP2 sessions, RHP3 handlers and the callers inside host/contracts together. *)
+Theorem c15_users_executions_are_locker_executions : forall us,
+  ureachable us -> reachable (length (uusers us)) (ubase us).
+Proof. exact ureachable_base. Qed.
+Print Assumptions c15_users_executions_are_locker_executions.
+
+(** What a user records is what its goroutine holds: a session between RPCs that records
+    contract i (or is past the manager call of its Lock RPC), a handler in its body or at a return
+    — its goroutine is the holder of i; a session that records nothing, an ended session, a handler
+    that has not locked or has returned — its goroutine is attached to no lock. *)
+Theorem c15_user_holds_is_holder : forall us t u th i,
+  ureachable us -> nth_error (uusers us) t = Some u -> nth_error (ths (ubase us)) t = Some th ->
+  (user_holds i u -> tpc th = Holding i) /\ (user_rest u -> tpc th = Idle).
+Proof. exact user_holds_is_holder. Qed.
+Print Assumptions c15_user_holds_is_holder.
+
+(** Mutual exclusion on the users: two of them that have contract i (sessions, handlers, free
+    callers in any mix) are one and the same. *)
+Theorem c15_users_mutual_exclusion : forall us i t1 t2 u1 u2 th1 th2,
+  ureachable us ->
+  nth_error (uusers us) t1 = Some u1 -> nth_error (ths (ubase us)) t1 = Some th1 ->
+  nth_error (uusers us) t2 = Some u2 -> nth_error (ths (ubase us)) t2 = Some th2 ->
+  sys_holds i u1 th1 -> sys_holds i u2 th2 -> t1 = t2.
+Proof. exact users_mutual_exclusion. Qed.
+Print Assumptions c15_users_mutual_exclusion.
+
+(** Session end: whenever a session is ending (an RPC returned an error, the peer closed, a Lock
+    RPC was refused at any of its checks) the deferred release of upgrade is enabled and completes
+    without panic ... *)
+Theorem c15_session_end_completes : forall us t sc,
+  ureachable us -> nth_error (uusers us) t = Some (USess sc SEnding) ->
+  exists us' th', ustep us (UAct t SEnd) = Some us'
+                  /\ nth_error (uusers us') t = Some (USess sc SEnded)
+                  /\ nth_error (ths (ubase us')) t = Some th' /\ tpc th' = Idle.
+Proof. exact session_end_completes. Qed.
+Print Assumptions c15_session_end_completes.
+
+(** ... and after it the session holds nothing and the table has no entry caused by it: a
+    contract no OTHER goroutine is attached to has no entry. *)
+Theorem c15_session_end_releases : forall us t sc th,
+  ureachable us -> nth_error (uusers us) t = Some (USess sc SEnded) ->
+  nth_error (ths (ubase us)) t = Some th ->
+  tpc th = Idle /\
+  forall i, (forall u thu, u <> t -> nth_error (ths (ubase us)) u = Some thu -> ~ attached i (tpc thu)) ->
+            tlookup i (tbl (ubase us)) = None.
+Proof. exact session_end_releases. Qed.
+Print Assumptions c15_session_end_releases.
+
+(** Handlers: at every return after the Lock the deferred release is enabled and completes; a
+    handler that has returned (also: that returned before or from its Lock call) holds nothing. *)
+Theorem c15_handler_deferred_release_completes : forall us t i,
+  ureachable us -> nth_error (uusers us) t = Some (UBr (BRet i)) ->
+  exists us' th', ustep us (UAct t BDefer) = Some us'
+                  /\ nth_error (uusers us') t = Some (UBr BIdle)
+                  /\ nth_error (ths (ubase us')) t = Some th' /\ tpc th' = Idle.
+Proof. exact handler_deferred_release_completes. Qed.
+Print Assumptions c15_handler_deferred_release_completes.
+
+Theorem c15_handler_return_releases : forall us t th,
+  ureachable us -> nth_error (uusers us) t = Some (UBr BIdle) ->
+  nth_error (ths (ubase us)) t = Some th -> tpc th = Idle.
+Proof. exact handler_return_releases. Qed.
+Print Assumptions c15_handler_return_releases.
+
+(** No leak, whole system: when every session records nothing or has ended, every handler has
+    returned and every free caller is idle, the lock table is empty. *)
+Theorem c15_users_no_leak : forall us,
+  ureachable us ->
+  (forall t u th, nth_error (uusers us) t = Some u -> nth_error (ths (ubase us)) t = Some th ->
+                  match u with UFree => tpc th = Idle | _ => user_rest u end) ->
+  tbl (ubase us) = [].
+Proof. exact users_no_leak. Qed.
+Print Assumptions c15_users_no_leak.
+
+(** The changed rpcLock of seeded change C15-mut6 ([urun_gen true]: s.contract recorded before the
+    challenge is verified).  Full statement it violates: [c15_users_unlock_only_held] /
+    [c15_users_mutual_exclusion] for that program.  A stranger's Lock RPC on contract 5 is refused,
+    a manager caller takes the free contract, the session ends and releases the caller's hold, a
+    third caller is admitted: two holders; the unchanged program on the same schedule keeps the
+    third caller waiting; without the interposed caller the second release panics. *)
+Theorem c15_legacy_lock_order_refuted :
+  (exists us, urun_gen true (uinit [USess 0%N SLoop; UFree; UFree]) mut6_schedule = Some us
+              /\ uobs_of us = ([OSEnded; OF (SHold 5%N); OF (SHold 5%N)], [(5%N, 1, 0)]))
+  /\ (exists us, urun (uinit [USess 0%N SLoop; UFree; UFree]) mut6_schedule = Some us
+                 /\ uobs_of us = ([OSEnded; OF (SHold 5%N); OF (SWait 5%N)], [(5%N, 2, 0)]))
+  /\ (exists us, urun_gen true (uinit [USess 0%N SLoop; UFree; UFree])
+                   [UAct 0 (SRpcLock 5%N false false false); UAct 0 SLockReturn; UAct 0 SChallenge; UAct 0 SEnd] = Some us
+                 /\ uobs_of us = ([OF SPanicked; OF SIdle; OF SIdle], [])).
+Proof. exact legacy_lock_order_refuted. Qed.
+Print Assumptions c15_legacy_lock_order_refuted.
+
+(** The tie for the users: whatever the checker offers as next observation is shown by the
+    composed model after an interleaving of the recorded external actions (each once) with
+    internal steps, at quiescence; an accepted case is an execution of the composed model. *)
+Theorem c15_users_successors_sound : forall cand acts s',
+  In s' (usuccessors cand (UPar acts)) ->
+  exists s l, In s cand /\ usched l acts /\ urun s l = Some s' /\ uquiescent s' = true.
+Proof. exact usuccessors_sound. Qed.
+Print Assumptions c15_users_successors_sound.
+
+(** ... and nothing else is missing (no false alarm from the exploration's fuel): for candidate
+    states in which every goroutine slot has a user the checker's successors are EXACTLY those
+    states (every internal step decreases a measure bounded by 14 per user). *)
+Theorem c15_users_successors_spec : forall cand acts s',
+  uexternal_only acts = true ->
+  (forall s, In s cand -> length (uusers s) = length (ths (ubase s))) ->
+  (In s' (usuccessors cand (UPar acts)) <->
+   exists s l, In s cand /\ usched l acts /\ urun s l = Some s' /\ uquiescent s' = true).
+Proof. exact usuccessors_spec. Qed.
+Print Assumptions c15_users_successors_spec.
+
+Theorem c15_users_internal_steps_terminate : forall us a us',
+  ustep us a = Some us' ->
+  if uinternal a then umeasure us' < umeasure us else umeasure us' <= umeasure us + 14.
+Proof. exact umeasure_step. Qed.
+Print Assumptions c15_users_internal_steps_terminate.
+
+Theorem c15_users_accepted_case_is_model_execution : forall l cand idx,
+  urun_case cand idx l = None -> cand <> [] -> exists s, In s cand /\ uchain s l.
+Proof. exact urun_case_sound. Qed.
+Print Assumptions c15_users_accepted_case_is_model_execution.
+
+(* non-vacuity of the user theorems: a manager caller holds contract 5, an RHP2 session's Lock RPC
+   (good signature) and an RHP3 handler queue up behind it; the caller unlocks: either the session
+   is admitted (and may lose its connection while answering) and the handler stays parked, or the
+   handler is admitted, runs its body, releases at its return and the session is admitted. *)
+Example c15_users_nonvacuous :
+  map uobs_of (usuccessors (usuccessors (usuccessors (usuccessors (usuccessors [uinit []]
+        (UInit [UFree; USess 0%N SLoop; UBr BIdle]))
+        (UPar [UBase (ALock 0 5%N false false)])) (UPar [UAct 1 (SRpcLock 5%N true false false)]))
+        (UPar [UAct 2 (BEnter 5%N false false false)])) (UPar [UBase (AUnlock 0)]))
+  = [([OF SIdle; OSLoop 5%N; OBWait 5%N], [(5%N, 2, 0)]);
+     ([OF SIdle; OSLoop 5%N; OBIdle], [(5%N, 1, 0)]);
+     ([OF SIdle; OSEnded; OBIdle], [])].
 Proof. vm_compute; reflexivity. Qed.
